@@ -84,6 +84,10 @@ def work(ctx, tier):
         ctx.inc("random_scenarios")
     common.crossing_slice(ctx, tier, common.rng_for(ctx, "crossing"), lambda sc, e: _one(ctx, sc, e, stats, rng))
     common.reconfig_slice(ctx, tier, common.rng_for(ctx, "reconfig"), lambda sc, e: _one(ctx, sc, e, stats, rng))
+    if ctx.shard == 0:
+        from . import hang
+
+        hang.entry_behind_an_abandoned_attempt(ctx)
     common.flush_stats(ctx, stats)
 
 
@@ -99,12 +103,14 @@ def conclude(ctx):
         "wall_differentials": (ctx.cnt["wall_differentials"], 1000),
     }
     common.crossing_floors(ctx, floors)
+    floors["hung_attempt_deadline_runs"] = (ctx.cnt["hung_attempt_deadline_runs"], 1)
     floors["reconfigured_scenarios"] = (ctx.cnt["reconfigured_scenarios"], 80)
 
     return dict(
         rule=(
             "deadline-boundary scenarios (attempt ending exactly at / one grid step or 0.3/0.7/3 us / 1 ms around the deadline; strategy asking exactly/more than the remainder; "
-            "sleeper overshoot) + random timing scenarios, every run repeated under a second hostile wall clock; non-trivial = run ended by DEADLINE_EXCEEDED; "
+            "sleeper overshoot) + random timing scenarios + the clock crossing the deadline inside a sleep handler / before_sleep hook / record_failure() + the deadline reassigned between two calls on one object, "
+            "every run repeated under a second hostile wall clock; one real-time run in which a timed-out attempt keeps running until after the deadline (operation entry judged causally); non-trivial = run ended by DEADLINE_EXCEEDED; "
             "distinct = distinct (deadline, durations, overshoots, strategy values, entry)"
         ),
         evaluations=ctx.cnt["runs"] + ctx.cnt["wall_differentials"],
@@ -121,6 +127,30 @@ def conclude(ctx):
 
 def replay(data):
     p = data["payload"]
+    if "hang" in p:
+        import collections
+
+        from . import hang
+
+        class C:
+            cnt = collections.Counter()
+            bad = []
+
+            def inc(self, *a):
+                pass
+
+            def inconclusive_because(self, m):
+                print("  ??", m)
+
+            def viol(self, k, m, pl):
+                self.bad.append(m)
+
+        c = C()
+        hang.entry_behind_an_abandoned_attempt(c)
+        for m in c.bad:
+            print("  !!", m)
+        print("replay:", "violation reproduced" if c.bad else "no violation on this tree")
+        return 1 if c.bad else 0
     if p.get("mode") == "wall":
         sc, e = p["scenario"], p["entry"]
         r1, _, _ = rig.run(sc, e, wall_seed=1, wall_mode=p["wall"][0])
